@@ -144,7 +144,10 @@ impl<T: Neg> Neg for IntOfLog<T> {
 impl<T: Evaluate> Evaluate for IntOfLog<T> {
     #[inline]
     fn evaluate(&self, v: f64) -> f64 {
-        self.k + self.poly.evaluate(v.ln())
+        // The antiderivative of p(ln t) built by the `indefinite` recurrences
+        // is t·q(ln t), not q(ln t): the factor `v` is part of the form (see
+        // `IntOfLogPoly4::evaluate`, which has it).
+        self.k + v * self.poly.evaluate(v.ln())
     }
 }
 
